@@ -65,6 +65,8 @@ def subst(e: ast.expr, m: dict[str, ast.expr]) -> ast.expr:
 def is_strish(e: ast.expr, env: dict[str, list]) -> bool:
     if isinstance(e, ast.Constant) and isinstance(e.value, str):
         return True
+    if isinstance(e, ast.Call) and isinstance(e.func, ast.Attribute) and e.func.attr == "join" and isinstance(e.func.value, ast.Constant) and e.func.value.value == "":
+        return True
     if isinstance(e, ast.JoinedStr):
         return True
     if isinstance(e, ast.Name) and e.id in env:
@@ -108,6 +110,8 @@ def _eval_str(e: ast.expr, env: dict[str, list], alias: dict[str, ast.expr]) -> 
                     spec = norm(v.format_spec)
                 if isinstance(v.value, ast.Name) and v.value.id in env and not conv and spec is None:
                     out.extend(env[v.value.id])
+                elif not conv and spec is None and isinstance(v.value, ast.Call) and is_strish(v.value, env):
+                    out.extend(eval_str(v.value, env, alias))  # "".join(...) formatted into the text
                 elif not conv and spec is None and (isinstance(v.value, ast.JoinedStr) or (
                         isinstance(v.value, ast.BinOp) and isinstance(v.value.op, ast.Add) and is_strish(v.value, env))):
                     out.extend(eval_str(v.value, env, alias))  # nested f-string / concatenation (an inlined intermediate)
@@ -116,6 +120,20 @@ def _eval_str(e: ast.expr, env: dict[str, list], alias: dict[str, ast.expr]) -> 
         return out
     if isinstance(e, ast.BinOp) and isinstance(e.op, ast.Add):
         return eval_str(e.left, env, alias) + eval_str(e.right, env, alias)
+    if isinstance(e, ast.Call) and isinstance(e.func, ast.Attribute) and e.func.attr == "join" and isinstance(e.func.value, ast.Constant) \
+            and e.func.value.value == "" and len(e.args) == 1 and not e.keywords:
+        a = e.args[0]
+        if isinstance(a, (ast.GeneratorExp, ast.ListComp)) and len(a.generators) == 1 and not a.generators[0].ifs:
+            g = a.generators[0]
+            inner_env = {k: v for k, v in env.items()}
+            return [Loop(subst(g.iter, alias), g.target, eval_str(a.elt, inner_env, alias), e)]
+        if isinstance(a, ast.Name) and a.id in env:
+            return list(env[a.id])  # a list of pieces collected with append(): the same text as += on a string
+        if isinstance(a, (ast.List, ast.Tuple)):
+            out2: list = []
+            for x in a.elts:
+                out2 += eval_str(x, env, alias)
+            return out2
     if isinstance(e, ast.Call) and dotted(e.func) == "str" and len(e.args) == 1:
         return [Dyn(subst(e.args[0], alias), "s", None, e)]
     if isinstance(e, ast.Call) and dotted(e.func) == "repr" and len(e.args) == 1:
@@ -138,6 +156,7 @@ def contributions(func: Func) -> list[Sink]:
     alias: dict[str, ast.expr] = {}
     pending: dict[str, tuple[list, ast.Call, str, ast.stmt]] = {}  # local var holding a digest -> snapshot
     sinks: list[Sink] = []
+    lists: set[str] = set()
 
     def find_hash_call(st: ast.stmt) -> ast.Call | None:
         for n in walk_local(st):
@@ -232,6 +251,15 @@ def contributions(func: Func) -> list[Sink]:
                 segs, hc2, algo, st0 = pending[sa[1].id]
                 sinks.append(Sink(sa[0], segs, hc2, algo, st0))
                 continue
+            if isinstance(st, ast.Assign) and len(st.targets) == 1 and isinstance(st.targets[0], ast.Name) and isinstance(st.value, ast.List) and not st.value.elts:
+                env[st.targets[0].id] = []  # a list of text pieces (joined later)
+                lists.add(st.targets[0].id)
+                continue
+            if isinstance(st, ast.Expr) and isinstance(st.value, ast.Call) and isinstance(st.value.func, ast.Attribute) and st.value.func.attr == "append" \
+                    and isinstance(st.value.func.value, ast.Name) and st.value.func.value.id in lists and len(st.value.args) == 1:
+                nm = st.value.func.value.id
+                env[nm] = env[nm] + eval_str(st.value.args[0], {k: v for k, v in env.items() if k not in lists}, alias)
+                continue
             if isinstance(st, ast.Assign) and len(st.targets) == 1 and isinstance(st.targets[0], ast.Name):
                 name = st.targets[0].id
                 if is_strish(st.value, env):
@@ -259,6 +287,8 @@ def contributions(func: Func) -> list[Sink]:
                 touched |= {n.func.value.id for n in walk_body(st.body) if isinstance(n, ast.Call) and isinstance(n.func, ast.Attribute) and n.func.attr == "update"
                             and isinstance(n.func.value, ast.Name) and n.func.value.id in hashers}
                 touched |= {t.id for n in walk_body(st.body) if isinstance(n, ast.Assign) for t in n.targets if isinstance(t, ast.Name) and t.id in env}
+                touched |= {n.func.value.id for n in walk_body(st.body) if isinstance(n, ast.Call) and isinstance(n.func, ast.Attribute) and n.func.attr == "append"
+                            and isinstance(n.func.value, ast.Name) and n.func.value.id in lists}
                 if not touched:
                     continue
                 saved = {k: env[k] for k in touched}
